@@ -412,7 +412,12 @@ int __wrap_kill(pid_t p, int s)
 
 /* ---- the server: real loop + real service ---- */
 
-static int32_t w_job_add(enum qb_loop_priority p, void *data, qb_loop_job_dispatch_fn fn) { return qb_loop_job_add(SL, p, data, fn); }
+static int W_jobadd_fail_once;                 /* the application's job_add handler reports an error the next time it is asked */
+static int32_t w_job_add(enum qb_loop_priority p, void *data, qb_loop_job_dispatch_fn fn)
+{
+	if (W_jobadd_fail_once) { W_jobadd_fail_once = 0; vp_log("  S: job_add handler fails with -ENOMEM"); return -ENOMEM; }
+	return qb_loop_job_add(SL, p, data, fn);
+}
 static int32_t w_dispatch_add(enum qb_loop_priority p, int32_t fd, int32_t evts, void *data, qb_ipcs_dispatch_fn_t fn) { return qb_loop_poll_add(SL, p, fd, evts, data, fn); }
 static int32_t w_dispatch_mod(enum qb_loop_priority p, int32_t fd, int32_t evts, void *data, qb_ipcs_dispatch_fn_t fn) { return qb_loop_poll_mod(SL, p, fd, evts, data, fn); }
 static int32_t w_dispatch_del(int32_t fd) { return qb_loop_poll_del(SL, fd); }
